@@ -361,16 +361,16 @@ func TestC20(t *testing.T) {
 		if vgate.Calls.Load() < 0 {
 			t.Fatal("unreachable")
 		}
-		triples := [][]int{{0, 1, 2}, {0, 1, 3}, {0, 2, 3}, {1, 2, 3}}
+		triples := [][]int{{0, 1, 2}, {0, 1, 3}, {0, 2, 3}, {1, 2, 3}, {0, 3, 4}, {2, 3, 4}}
 		bound := 2
 		if thorough() {
 			bound = 3
-			triples = append(triples, []int{0, 1, 4}, []int{0, 2, 4}, []int{0, 1, 2, 3})
+			triples = append(triples, []int{0, 1, 4}, []int{0, 2, 4}, []int{1, 3, 4}, []int{0, 1, 2, 3})
 		}
 		rule := "threads = concurrent clients of one real store: W1 node-point writer (write, read-own-write, write), W2 edge-point writer, R reader (monotonic reads), V admin.storeVerify%s; all triples; scheduling points = every message delivery, every SQL operation and every writeLock.Lock in store/sqlite.go; all schedules with at most %d preemptions; oracles: every request answered (no deadlock), acknowledged writes visible, reads never go back, final content = newest acknowledged writes, hashes consistent, storeMaint has nothing to repair"
-		extra := ""
+		extra := ", M admin.storeMaint (with V and a writer / reader)"
 		if thorough() {
-			extra = ", M admin.storeMaint, and all four together"
+			extra = ", M admin.storeMaint, more triples with M, and W1 W2 R V together"
 		}
 		r.Explore(mc.Config{Name: fmt.Sprintf("schedules-p%d", bound), Serial: true, SplitDepth: 4, DevBound: bound, SelfCheckEvery: 211, Rule: fmt.Sprintf(rule, extra, bound)}, c20Body(t, triples, false, bound))
 		sb := 1
@@ -456,8 +456,8 @@ func c20RacePart(r *mc.Report) {
 }
 
 func init() {
-	t3 := [][]int{{0, 1, 2}, {0, 1, 3}, {0, 2, 3}, {1, 2, 3}}
-	t3t := append(append([][]int{}, t3...), []int{0, 1, 4}, []int{0, 2, 4}, []int{0, 1, 2, 3})
+	t3 := [][]int{{0, 1, 2}, {0, 1, 3}, {0, 2, 3}, {1, 2, 3}, {0, 3, 4}, {2, 3, 4}}
+	t3t := append(append([][]int{}, t3...), []int{0, 1, 4}, []int{0, 2, 4}, []int{1, 3, 4}, []int{0, 1, 2, 3})
 	bodies["C20/schedules-p2"] = func(t *testing.T) mc.Body { return c20Body(t, t3, false, 2) }
 	bodies["C20/schedules-p3"] = func(t *testing.T) mc.Body { return c20Body(t, t3t, false, 3) }
 	bodies["C20/shutdown-p1"] = func(t *testing.T) mc.Body { return c20Body(t, [][]int{{0, 1}, {0, 2}}, true, 1) }
